@@ -6,22 +6,25 @@
      raw0                 = line.raw[0].Orig()
      multiline            = line.IsMultiline() = len(line.raw) > 1
 
-   The differences to Model/MkLineSplit.v (one raw line, raw0 = text):
-     - the guard `if line.IsMultiline() && !contains(line.raw[0].Orig(), "=") { return false, nil }`
-       right after NewMkOperator and before everything that touches the raw line;
-     - getRawValueAlign walks line.raw[0].Orig(), not the logical text.
+   The differences to Model/MkLineSplit.v (one raw line, raw0 = text), code as of /repo 96b19dc:
+     - right after NewMkOperator, for a multi-line line,
+         upToOp := p.getRawValueAlign(text, condStr(commented, "#", "")+lexer.Since(mainStart))
+         firstLine := rtrimHspace(strings.TrimSuffix(line.raw[0].Orig(), "\\"))
+         if len(upToOp) > len(firstLine) { return false, nil }
+       i.e. the operator must end inside the first raw line;
+     - getRawValueAlign for valueAlign walks line.raw[0].Orig(), not the logical text.
    Definitions only. *)
 From PV Require Import Lib.Bytes Gen.MkByteSets Model.MkLexPrim Model.MkLexer Model.MkTokensLexer
   Model.MkLineSplit.
 From PV Require Model.Lines.
 Open Scope N_scope.
 
-(* contains(raw0, "=") *)
-Definition first_raw_has_equals (raw0 : str) : bool := contains_byte 61 raw0.
+(* rtrimHspace(strings.TrimSuffix(raw0, "\\")) *)
+Definition first_line_of (raw0 : str) : str := rtrim_hspace (Lines.trim_suffix [92] raw0).
 
 (* matchVarassign after the decision whether the line is a commented assignment;
    same statement order as the Go code *)
-Definition match_varassign_tail_ml (multiline : bool) (raw0 : str) (commented : bool) (sr : split_result)
+Definition match_varassign_tail_ml (multiline : bool) (raw0 text : str) (commented : bool) (sr : split_result)
     : res (option varassign) :=
   toks <- tokenize (sr_main sr) ;;
   let lexer0 := tl_new toks in
@@ -49,8 +52,14 @@ Definition match_varassign_tail_ml (multiline : bool) (raw0 : str) (commented : 
       (* NewMkOperator panics on anything else *)
       if negb (existsb (str_eqb op0) [[61]; [33; 61]; [58; 61]; [43; 61]; [63; 61]]) then Panic
       else
-        (* the operator is in a continuation line; not worth the trouble *)
-        if multiline && negb (first_raw_has_equals raw0) then Ok None
+        (* the operator must end in the first physical line *)
+        rejected <-
+          (if multiline then
+             up_to_op <- get_raw_value_align text
+                           ((if commented then [35] else []) ++ tl_since main_start lexer5) ;;
+             Ok (length (first_line_of raw0) <? length up_to_op)%nat
+           else Ok false) ;;
+        if (rejected : bool) then Ok None
         else
         let '(vname', op) :=
           if has_suffix [43] vname && str_eqb op0 [61] && negb (nonempty space_after_varname)
@@ -80,8 +89,8 @@ Definition match_varassign_ml (multiline : bool) (raw0 text : str) (first : spli
     else
       t1 <- skip 1 text ;;                             (* text[1:] *)
       sr <- split t1 true ;;
-      match_varassign_tail_ml multiline raw0 true sr
-  else match_varassign_tail_ml multiline raw0 false first.
+      match_varassign_tail_ml multiline raw0 text true sr
+  else match_varassign_tail_ml multiline raw0 text false first.
 
 (* Parse, for a line that does not start with a tab, up to matchVarassign *)
 Definition parse_varassign_ml (multiline : bool) (raw0 text : str) : res (option varassign) :=
